@@ -6,60 +6,61 @@ package main
 // two-statement form, reordered independent statements, an extra unrelated caller of an unrestricted function.
 
 type benign struct {
-	ID   string
-	Prop string
-	File string
-	Old  string
-	New  string
-	All  bool // replace every occurrence (renames)
-	What string
+	ID    string
+	Prop  string
+	File  string
+	Old   string
+	New   string
+	All   bool // replace every occurrence (renames)
+	What  string
+	Edits [][2]string // multi-hunk refactor (Old/New unused)
 }
 
 var benigns = []benign{
-	{"C06-b3", "C06", "x/feeds/keeper/keeper_price.go", "validatorsByPower", "vals", true, "rename a captured local"},
-	{"C09-b3", "C09", "x/oracle/keeper/owasm.go", "valPowers", "weights", true, "rename a captured local"},
-	{"C11-b3", "C11", "x/tss/types/content.go", "func wrapHandler(path string, handler Handler) Handler {\n	return func(ctx sdk.Context, req Content) ([]byte, error) {\n		msg, err := handler(ctx, req)", "func wrapHandler(route string, h Handler) Handler {\n	path, handler := route, h\n	return func(ctx sdk.Context, req Content) ([]byte, error) {\n		msg, err := handler(ctx, req)", false, "rename wrapHandler's parameters"},
-	{"C20-b3", "C20", "grogu/submitter/submitter.go", "signalPrices", "batch", true, "rename a captured local"},
-	{"C01-b1", "C01", "x/oracle/keeper/msg_server.go", "reportInTime", "inTime", true, "rename a local"},
-	{"C01-b2", "C01", "x/oracle/keeper/msg_server.go", "if k.GetReportCount(ctx, msg.RequestID) == req.MinCount {", "if req.MinCount == k.GetReportCount(ctx, msg.RequestID) {", false, "swap the operands of =="},
-	{"C01-b3", "C01", "x/oracle/keeper/report.go", "	if err := k.CheckValidReport(ctx, rid, val, rawReports); err != nil {\n		return err\n	}", "	err := k.CheckValidReport(ctx, rid, val, rawReports)\n	if err != nil {\n		return err\n	}", false, "two-statement error check"},
-	{"C01-b4", "C01", "x/oracle/keeper/msg_server.go", "	if msg.RequestID <= k.GetRequestLastExpired(ctx) {", "	if k.GetRequestLastExpired(ctx) >= msg.RequestID {", false, "flip a comparison"},
-	{"C02-b1", "C02", "x/oracle/abci.go", "	k.ProcessExpiredRequests(ctx)\n", "	k.ProcessExpiredRequests(ctx)\n	ctx.Logger().Debug(\"expired requests processed\")\n", false, "add a log line in end-block"},
-	{"C02-b2", "C02", "x/feeds/keeper/msg_server.go", "	keys := make([]string, 0, len(signalIDToPowerDiff))\n	for k := range signalIDToPowerDiff {\n		keys = append(keys, k)\n	}", "	ids := make([]string, 0, len(signalIDToPowerDiff))\n	for id := range signalIDToPowerDiff {\n		ids = append(ids, id)\n	}\n	keys := ids", false, "rename the collected-keys slice"},
-	{"C03-b1", "C03", "x/tss/keeper/msg_server.go", "	if !found || am.Address != req.Signer {", "	if !found || req.Signer != am.Address {", false, "swap the operands of !="},
-	{"C03-b2", "C03", "x/tss/keeper/keeper_signing_endblock.go", "	sig, err := tss.CombineSignatures(partialSigs...)", "	sig, err := tss.CombineSignatures(partialSigs...)\n	ctx.Logger().Debug(\"combined\")", false, "add a log line"},
-	{"C04-b1", "C04", "x/tss/keeper/keeper_group_round1.go", "	if uint64(len(round1Info.CoefficientCommits)) != group.Threshold {", "	if group.Threshold != uint64(len(round1Info.CoefficientCommits)) {", false, "swap the operands of !="},
-	{"C04-b2", "C04", "x/tss/keeper/keeper_group_round3.go", "complainantIndex", "slot", true, "rename a local"},
-	{"C05-b1", "C05", "x/tss/keeper/keeper_de.go", "	if deQueue.Head >= deQueue.Tail {", "	if deQueue.Tail <= deQueue.Head {", false, "flip a comparison"},
-	{"C05-b2", "C05", "x/tss/keeper/keeper_de.go", "	if total > maxDESize {", "	if maxDESize < total {", false, "flip a comparison"},
-	{"C06-b1", "C06", "x/feeds/keeper/keeper_price.go", "	if unsupportedPower.MulRaw(2).GT(totalPower) {", "	if totalPower.LT(unsupportedPower.MulRaw(2)) {", false, "a.GT(b) -> b.LT(a)"},
-	{"C06-b2", "C06", "x/feeds/types/median.go", "cumulativeWeight", "acc", true, "rename a local"},
-	{"C07-b1", "C07", "x/feeds/keeper/keeper_signal.go", "sumPower", "total", true, "rename a local"},
-	{"C07-b2", "C07", "x/feeds/keeper/msg_server.go", "		if signalTotalPower.Power < 0 {", "		if 0 > signalTotalPower.Power {", false, "flip a comparison"},
-	{"C08-b1", "C08", "x/tunnel/keeper/keeper_packet.go", "	k.SetTunnel(ctx, tunnel)\n	k.SetPacket(ctx, packet)", "	k.SetPacket(ctx, packet)\n	k.SetTunnel(ctx, tunnel)", false, "reorder two independent writes"},
-	{"C08-b2", "C08", "x/tunnel/keeper/keeper_packet.go", "unixNow", "now", true, "rename a local"},
-	{"C09-b1", "C09", "pkg/bandrng/sampling.go", "luckyNumber", "draw", true, "rename a local"},
-	{"C09-b2", "C09", "x/oracle/keeper/owasm.go", "	if len(valOperators) < size {", "	if size > len(valOperators) {", false, "flip a comparison"},
-	{"C10-b1", "C10", "x/tss/keeper/keeper_signing.go", "	if signing.CurrentAttempt > params.MaxSigningAttempt {", "	if params.MaxSigningAttempt < signing.CurrentAttempt {", false, "flip a comparison"},
-	{"C10-b2", "C10", "x/tss/keeper/msg_server.go", "	if sigCount == uint64(len(assignedMembers)) {", "	if uint64(len(assignedMembers)) == sigCount {", false, "swap the operands of =="},
-	{"C11-b1", "C11", "x/bandtss/tss_handler.go", "// tss.Hash([]byte(\"Transition\"))[:4]", "// the transition tag", false, "edit the comment next to a tag constant"},
-	{"C11-b2", "C11", "x/tss/types/helpers.go", "contentMsg", "content", true, "rename a parameter"},
-	{"C12-b1", "C12", "client/grpc/oracle/proof/iavl_proof.go", "subtreeVersion", "ver", true, "rename a local"},
-	{"C12-b2", "C12", "app/keepers/keys.go", "		authtypes.StoreKey,\n		banktypes.StoreKey,", "		banktypes.StoreKey,\n		authtypes.StoreKey,", false, "reorder the store-key arguments (the tree sorts them)"},
-	{"C13-b1", "C13", "x/oracle/keeper/fee_collector.go", "		if c.Amount.GT(limitAmt) {", "		if limitAmt.LT(c.Amount) {", false, "a.GT(b) -> b.LT(a)"},
-	{"C13-b2", "C13", "x/bandtss/keeper/keeper_signing.go", "			if fc.Amount.GT(limitAmt) {", "			if limitAmt.LT(fc.Amount) {", false, "a.GT(b) -> b.LT(a)"},
-	{"C14-b1", "C14", "x/bandtss/keeper/keeper_reward.go", "validMembers", "payees", true, "rename a local"},
-	{"C14-b2", "C14", "x/oracle/keeper/validator_status.go", "	if totalPower == 0 {", "	if 0 == totalPower {", false, "swap the operands of =="},
-	{"C15-b1", "C15", "x/oracle/keeper/validator_status.go", "	if status.IsActive && status.Since.Before(requestTime) {", "	if status.IsActive && requestTime.After(status.Since) {", false, "a.Before(b) -> b.After(a)"},
-	{"C15-b2", "C15", "x/feeds/keeper/keeper_price.go", "lastBlock", "blockBound", true, "rename a local"},
-	{"C16-b1", "C16", "x/restake/keeper/keeper_lock.go", "	if totalPower.LT(power) {", "	if power.GT(totalPower) {", false, "a.LT(b) -> b.GT(a)"},
-	{"C16-b2", "C16", "x/restake/keeper/hooks.go", "removingDelegation", "removed", true, "rename a local"},
-	{"C17-b1", "C17", "x/tunnel/keeper/msg_server.go", "msg.Creator != tunnel.Creator", "tunnel.Creator != msg.Creator", true, "swap the operands of != in every handler"},
-	{"C17-b2", "C17", "x/tunnel/keeper/keeper_deposit.go", "	k.SetDeposit(ctx, deposit)\n\n	// update the tunnel's total deposit\n	tunnel.TotalDeposit = tunnel.TotalDeposit.Add(depositAmount...)\n	k.SetTunnel(ctx, tunnel)", "	tunnel.TotalDeposit = tunnel.TotalDeposit.Add(depositAmount...)\n	k.SetTunnel(ctx, tunnel)\n	k.SetDeposit(ctx, deposit)", false, "reorder two independent writes"},
-	{"C18-b1", "C18", "x/bandtss/keeper/keeper_transition.go", "	if transition.Status != types.TRANSITION_STATUS_WAITING_EXECUTION {", "	if types.TRANSITION_STATUS_WAITING_EXECUTION != transition.Status {", false, "swap the operands of !="},
-	{"C18-b2", "C18", "x/bandtss/keeper/keeper_transition.go", "	if !found || transition.ExecTime.After(ctx.BlockTime()) {", "	if !found || ctx.BlockTime().Before(transition.ExecTime) {", false, "a.After(b) -> b.Before(a)"},
-	{"C19-b1", "C19", "yoda/handler.go", "processingResultCh", "out", true, "rename a parameter"},
-	{"C19-b2", "C19", "yoda/execute.go", "	if len(preview) > 32 {", "	if 32 < len(preview) {", false, "flip a comparison"},
-	{"C20-b1", "C20", "grogu/signaller/signaller.go", "thresholdTime", "earliest", true, "rename a local"},
-	{"C20-b2", "C20", "grogu/signaller/signaller.go", "	if oldPrice.SignalPriceStatus != newPrice.Status {", "	if newPrice.Status != oldPrice.SignalPriceStatus {", false, "swap the operands of !="},
+	{"C06-b3", "C06", "x/feeds/keeper/keeper_price.go", "validatorsByPower", "vals", true, "rename a captured local", nil},
+	{"C09-b3", "C09", "x/oracle/keeper/owasm.go", "valPowers", "weights", true, "rename a captured local", nil},
+	{"C11-b3", "C11", "x/tss/types/content.go", "func wrapHandler(path string, handler Handler) Handler {\n	return func(ctx sdk.Context, req Content) ([]byte, error) {\n		msg, err := handler(ctx, req)", "func wrapHandler(route string, h Handler) Handler {\n	path, handler := route, h\n	return func(ctx sdk.Context, req Content) ([]byte, error) {\n		msg, err := handler(ctx, req)", false, "rename wrapHandler's parameters", nil},
+	{"C20-b3", "C20", "grogu/submitter/submitter.go", "signalPrices", "batch", true, "rename a captured local", nil},
+	{"C01-b1", "C01", "x/oracle/keeper/msg_server.go", "reportInTime", "inTime", true, "rename a local", nil},
+	{"C01-b2", "C01", "x/oracle/keeper/msg_server.go", "if k.GetReportCount(ctx, msg.RequestID) == req.MinCount {", "if req.MinCount == k.GetReportCount(ctx, msg.RequestID) {", false, "swap the operands of ==", nil},
+	{"C01-b3", "C01", "x/oracle/keeper/report.go", "	if err := k.CheckValidReport(ctx, rid, val, rawReports); err != nil {\n		return err\n	}", "	err := k.CheckValidReport(ctx, rid, val, rawReports)\n	if err != nil {\n		return err\n	}", false, "two-statement error check", nil},
+	{"C01-b4", "C01", "x/oracle/keeper/msg_server.go", "	if msg.RequestID <= k.GetRequestLastExpired(ctx) {", "	if k.GetRequestLastExpired(ctx) >= msg.RequestID {", false, "flip a comparison", nil},
+	{"C02-b1", "C02", "x/oracle/abci.go", "	k.ProcessExpiredRequests(ctx)\n", "	k.ProcessExpiredRequests(ctx)\n	ctx.Logger().Debug(\"expired requests processed\")\n", false, "add a log line in end-block", nil},
+	{"C02-b2", "C02", "x/feeds/keeper/msg_server.go", "	keys := make([]string, 0, len(signalIDToPowerDiff))\n	for k := range signalIDToPowerDiff {\n		keys = append(keys, k)\n	}", "	ids := make([]string, 0, len(signalIDToPowerDiff))\n	for id := range signalIDToPowerDiff {\n		ids = append(ids, id)\n	}\n	keys := ids", false, "rename the collected-keys slice", nil},
+	{"C03-b1", "C03", "x/tss/keeper/msg_server.go", "	if !found || am.Address != req.Signer {", "	if !found || req.Signer != am.Address {", false, "swap the operands of !=", nil},
+	{"C03-b2", "C03", "x/tss/keeper/keeper_signing_endblock.go", "	sig, err := tss.CombineSignatures(partialSigs...)", "	sig, err := tss.CombineSignatures(partialSigs...)\n	ctx.Logger().Debug(\"combined\")", false, "add a log line", nil},
+	{"C04-b1", "C04", "x/tss/keeper/keeper_group_round1.go", "	if uint64(len(round1Info.CoefficientCommits)) != group.Threshold {", "	if group.Threshold != uint64(len(round1Info.CoefficientCommits)) {", false, "swap the operands of !=", nil},
+	{"C04-b2", "C04", "x/tss/keeper/keeper_group_round3.go", "complainantIndex", "slot", true, "rename a local", nil},
+	{"C05-b1", "C05", "x/tss/keeper/keeper_de.go", "	if deQueue.Head >= deQueue.Tail {", "	if deQueue.Tail <= deQueue.Head {", false, "flip a comparison", nil},
+	{"C05-b2", "C05", "x/tss/keeper/keeper_de.go", "	if total > maxDESize {", "	if maxDESize < total {", false, "flip a comparison", nil},
+	{"C06-b1", "C06", "x/feeds/keeper/keeper_price.go", "	if unsupportedPower.MulRaw(2).GT(totalPower) {", "	if totalPower.LT(unsupportedPower.MulRaw(2)) {", false, "a.GT(b) -> b.LT(a)", nil},
+	{"C06-b2", "C06", "x/feeds/types/median.go", "cumulativeWeight", "acc", true, "rename a local", nil},
+	{"C07-b1", "C07", "x/feeds/keeper/keeper_signal.go", "sumPower", "total", true, "rename a local", nil},
+	{"C07-b2", "C07", "x/feeds/keeper/msg_server.go", "		if signalTotalPower.Power < 0 {", "		if 0 > signalTotalPower.Power {", false, "flip a comparison", nil},
+	{"C08-b1", "C08", "x/tunnel/keeper/keeper_packet.go", "	k.SetTunnel(ctx, tunnel)\n	k.SetPacket(ctx, packet)", "	k.SetPacket(ctx, packet)\n	k.SetTunnel(ctx, tunnel)", false, "reorder two independent writes", nil},
+	{"C08-b2", "C08", "x/tunnel/keeper/keeper_packet.go", "unixNow", "now", true, "rename a local", nil},
+	{"C09-b1", "C09", "pkg/bandrng/sampling.go", "luckyNumber", "draw", true, "rename a local", nil},
+	{"C09-b2", "C09", "x/oracle/keeper/owasm.go", "	if len(valOperators) < size {", "	if size > len(valOperators) {", false, "flip a comparison", nil},
+	{"C10-b1", "C10", "x/tss/keeper/keeper_signing.go", "	if signing.CurrentAttempt > params.MaxSigningAttempt {", "	if params.MaxSigningAttempt < signing.CurrentAttempt {", false, "flip a comparison", nil},
+	{"C10-b2", "C10", "x/tss/keeper/msg_server.go", "	if sigCount == uint64(len(assignedMembers)) {", "	if uint64(len(assignedMembers)) == sigCount {", false, "swap the operands of ==", nil},
+	{"C11-b1", "C11", "x/bandtss/tss_handler.go", "// tss.Hash([]byte(\"Transition\"))[:4]", "// the transition tag", false, "edit the comment next to a tag constant", nil},
+	{"C11-b2", "C11", "x/tss/types/helpers.go", "contentMsg", "content", true, "rename a parameter", nil},
+	{"C12-b1", "C12", "client/grpc/oracle/proof/iavl_proof.go", "subtreeVersion", "ver", true, "rename a local", nil},
+	{"C12-b2", "C12", "app/keepers/keys.go", "		authtypes.StoreKey,\n		banktypes.StoreKey,", "		banktypes.StoreKey,\n		authtypes.StoreKey,", false, "reorder the store-key arguments (the tree sorts them)", nil},
+	{"C13-b1", "C13", "x/oracle/keeper/fee_collector.go", "		if c.Amount.GT(limitAmt) {", "		if limitAmt.LT(c.Amount) {", false, "a.GT(b) -> b.LT(a)", nil},
+	{"C13-b2", "C13", "x/bandtss/keeper/keeper_signing.go", "			if fc.Amount.GT(limitAmt) {", "			if limitAmt.LT(fc.Amount) {", false, "a.GT(b) -> b.LT(a)", nil},
+	{"C14-b1", "C14", "x/bandtss/keeper/keeper_reward.go", "validMembers", "payees", true, "rename a local", nil},
+	{"C14-b2", "C14", "x/oracle/keeper/validator_status.go", "	if totalPower == 0 {", "	if 0 == totalPower {", false, "swap the operands of ==", nil},
+	{"C15-b1", "C15", "x/oracle/keeper/validator_status.go", "	if status.IsActive && status.Since.Before(requestTime) {", "	if status.IsActive && requestTime.After(status.Since) {", false, "a.Before(b) -> b.After(a)", nil},
+	{"C15-b2", "C15", "x/feeds/keeper/keeper_price.go", "lastBlock", "blockBound", true, "rename a local", nil},
+	{"C16-b1", "C16", "x/restake/keeper/keeper_lock.go", "	if totalPower.LT(power) {", "	if power.GT(totalPower) {", false, "a.LT(b) -> b.GT(a)", nil},
+	{"C16-b2", "C16", "x/restake/keeper/hooks.go", "removingDelegation", "removed", true, "rename a local", nil},
+	{"C17-b1", "C17", "x/tunnel/keeper/msg_server.go", "msg.Creator != tunnel.Creator", "tunnel.Creator != msg.Creator", true, "swap the operands of != in every handler", nil},
+	{"C17-b2", "C17", "x/tunnel/keeper/keeper_deposit.go", "	k.SetDeposit(ctx, deposit)\n\n	// update the tunnel's total deposit\n	tunnel.TotalDeposit = tunnel.TotalDeposit.Add(depositAmount...)\n	k.SetTunnel(ctx, tunnel)", "	tunnel.TotalDeposit = tunnel.TotalDeposit.Add(depositAmount...)\n	k.SetTunnel(ctx, tunnel)\n	k.SetDeposit(ctx, deposit)", false, "reorder two independent writes", nil},
+	{"C18-b1", "C18", "x/bandtss/keeper/keeper_transition.go", "	if transition.Status != types.TRANSITION_STATUS_WAITING_EXECUTION {", "	if types.TRANSITION_STATUS_WAITING_EXECUTION != transition.Status {", false, "swap the operands of !=", nil},
+	{"C18-b2", "C18", "x/bandtss/keeper/keeper_transition.go", "	if !found || transition.ExecTime.After(ctx.BlockTime()) {", "	if !found || ctx.BlockTime().Before(transition.ExecTime) {", false, "a.After(b) -> b.Before(a)", nil},
+	{"C19-b1", "C19", "yoda/handler.go", "processingResultCh", "out", true, "rename a parameter", nil},
+	{"C19-b2", "C19", "yoda/execute.go", "	if len(preview) > 32 {", "	if 32 < len(preview) {", false, "flip a comparison", nil},
+	{"C20-b1", "C20", "grogu/signaller/signaller.go", "thresholdTime", "earliest", true, "rename a local", nil},
+	{"C20-b2", "C20", "grogu/signaller/signaller.go", "	if oldPrice.SignalPriceStatus != newPrice.Status {", "	if newPrice.Status != oldPrice.SignalPriceStatus {", false, "swap the operands of !=", nil},
 }
